@@ -15,7 +15,7 @@ Ltac zpow_norm :=
   end.
 Ltac cx_unfold :=
   cbv [cadd csub cmul copp cconj cscale cdivr cinv cdiv cabs2 c0 c1 cj cofR cre cim
-       fst snd add sub mul div opp zero one two half sqr of_dec pow10 of_Z RNum T] in *;
+       fst snd add sub mul div opp zero one two half sqr of_dec Rof_dec of_Z RNum T] in *;
   zpow_norm.
 Ltac cx_destruct :=
   repeat match goal with
@@ -23,6 +23,7 @@ Ltac cx_destruct :=
       let t' := eval hnf in t in
       match t' with prod _ _ => destruct x end
   end.
+Ltac Rgoal := match goal with |- @eq _ ?a ?b => change (@eq R a b) end.
 Ltac cx_ring := intros; cx_destruct; cx_unfold; f_equal; ring.
 Ltac cx_field := intros; cx_destruct; cx_unfold; f_equal; field.
 
